@@ -5,44 +5,25 @@
    [conforms p c]: every complete event sequence of the action tree [c] (Lock / Unlock of mux and the
    accesses to the protected fields, [Reduction.paths]) is the projection, onto the events that
    concern mux and the watched fields, of the trace of a complete control-flow path ([Atomic.bpath]:
-   calls expanded, deferred unlocks run) of one of the methods listed in [atomic_steps] of program p
-   — or is empty (a thread that touches neither).
+   calls expanded, deferred unlocks run) of one of the methods listed in [atomic_steps] of program p,
+   possibly with some of that path's accesses left out ([sub_acc]: the source may read a field more
+   often than the tree does; every Lock / Unlock is kept) — or is empty (a thread that touches
+   neither).
    [conforms_atomic]: steps_atomic_ok p fuel = true  =>  every event sequence of a conforming tree
    is [tr_atomic].   With [Reduction.atomic_paths_wl]: a conforming, well-shaped tree is disciplined.
    [tcode_conforms]: the trees add_code / get_code / discover / refresh_code / event_code (and the
-   environment threads) conform to [fswallet_prog], the structure translated from the CURRENT source:
-   for every branch of the tree (every listing, every outcome of the map lookups) a path of the
-   translated body with the same projected trace is constructed.
+   environment threads) conform to any program p for which the path finder of Conc/PathFind.v
+   succeeds ([covers_ok p fuel = true], evaluated by vm_compute on the structure translated from the
+   CURRENT source): the event sequences of the trees are the words of three patterns
+   (Lock (eps | Mr | Mr Mw | Mr Mw Ar Aw)* Lr Unlock for notifyNewFiles), and the finder proves
+   that the translated body has a complete path for every word.  Decided by computation so that a
+   behaviour-preserving refactor of the source does not break it.
    [fine_grained_refines]: the combination. *)
 From Coq Require Import List NArith Bool Arith Lia Permutation String.
 From FFS Require Import Conc.Lockset Conc.LocksetProofs Conc.Atomic Conc.AtomicProofs Gen.FsWalletSync Conc.FsWallet
-  Conc.FsWalletAtomic Conc.Reduction Wallet.Notify Wallet.NotifyProofs Wallet.NotifyRefine.
+  Conc.FsWalletAtomic Conc.Reduction Conc.PathFind Wallet.Notify Wallet.NotifyProofs Wallet.NotifyRefine.
 Import ListNotations.
 Open Scope list_scope.
-
-(* ---------------------------------------------------------------------------------------------- *)
-(* events that matter to the automaton of Atomic.v *)
-Section Relevant.
-  Variable m : mutex.
-  Variable L : list loc.
-
-  Definition relevant (e : ev) : bool :=
-    match e with
-    | ELock m' => String.eqb m' m
-    | EUnlock m' => String.eqb m' m
-    | EAcc l _ => watched L l
-    end.
-
-  Lemma ev_run_filter : forall tr s, ev_run m L s (filter relevant tr) = ev_run m L s tr.
-  Proof.
-    induction tr as [|e tr IH]; intros s; [reflexivity|]. cbn [filter].
-    destruct (relevant e) eqn:R.
-    - cbn [ev_run]. destruct (ev_step m L s e); [apply IH|reflexivity].
-    - cbn [ev_run]. rewrite IH.
-      assert (ev_step m L s e = Some s) as ->; [|reflexivity].
-      destruct e as [m'|m'|l w]; cbn [relevant ev_step] in *; rewrite R; reflexivity.
-  Qed.
-End Relevant.
 
 Notation wpaths := (Reduction.paths prot choice (list addr) outa ina discovery_mutex).
 Notation wshape := (Reduction.shape_ok prot choice (list addr) outa ina discovery_locs).
@@ -53,15 +34,15 @@ Definition conforms (p : prog) (c : wcode) : Prop :=
   forall tr, wpaths c tr ->
     tr = [] \/
     exists f needs body tr', In (f, needs) atomic_steps /\ lookup_body p f = Some body /\
-      Atomic.bpath p body tr' /\ filter rel tr' = tr.
+      Atomic.bpath p body tr' /\ sub_acc tr (filter rel tr').
 
 Theorem conforms_atomic : forall p fuel c,
   steps_atomic_ok p fuel = true -> conforms p c ->
   forall tr, wpaths c tr -> tr_atomic discovery_mutex discovery_locs tr.
 Proof.
-  intros p fuel c Hok Hc tr Hp. destruct (Hc tr Hp) as [->|(f & needs & body & tr' & Hin & Hl & Hb & <-)].
+  intros p fuel c Hok Hc tr Hp. destruct (Hc tr Hp) as [->|(f & needs & body & tr' & Hin & Hl & Hb & Hs)].
   - cbn. discriminate.
-  - unfold tr_atomic. rewrite ev_run_filter.
+  - unfold tr_atomic. apply (ev_run_sub _ _ _ _ Hs). rewrite ev_run_filter.
     exact (proj1 (steps_atomic_sound p fuel Hok f needs body tr' Hin Hl Hb)).
 Qed.
 
@@ -115,11 +96,10 @@ Section Shape.
 End Shape.
 
 (* ---------------------------------------------------------------------------------------------- *)
-(* paths of the translated bodies that the trees follow *)
-Notation P := fswallet_prog.
+(* the event sequences of the trees, as patterns; that the translated bodies have a path for every
+   word of them is decided by the path finder of Conc/PathFind.v *)
 Notation mx := discovery_mutex.
 
-Ltac lk := vm_compute; reflexivity.
 Ltac inv_p :=
   match goal with
   | H : Reduction.paths _ _ _ _ _ _ (CLock _) _ |- _ => inversion H; clear H; subst
@@ -130,39 +110,6 @@ Ltac inv_p :=
   | H : Reduction.paths _ _ _ _ _ _ (CTau _) _ |- _ => inversion H; clear H; subst
   | H : Reduction.paths _ _ _ _ _ _ (Done _) _ |- _ => inversion H; clear H; subst
   end.
-Ltac use_ih IH :=
-  match goal with
-  | H : Reduction.paths _ _ _ _ _ _ (loop _ _ _) _ |- _ => destruct (IH _ _ H) as [trL [Hl ->]]
-  end.
-Ltac sq := eapply Atomic.LP_seq; [econstructor|].
-
-Definition trMF : list ev := [EAcc ["conf"; "Path"]%string false].
-
-(* matchFilename: one complete path (the first early return); it touches no watched field *)
-Lemma bpath_MF : Atomic.bpath P body_matchFilename trMF.
-Proof.
-  change trMF with (([] ++ [EAcc ["conf"; "Path"]%string false]) ++ []).
-  eapply Atomic.BP with (ds := []) (r := true); [|constructor].
-  unfold body_matchFilename.
-  eapply Atomic.LP_seq with (tr1 := []) (ds1 := []) (ds2 := []); [constructor|].
-  eapply Atomic.LP_ret. eapply Atomic.IP_if_l.
-  change [EAcc ["conf"; "Path"]%string false] with ([] ++ [EAcc ["conf"; "Path"]%string false] ++ [] ++ [] ++ []).
-  eapply Atomic.LP_seq with (ds1 := []) (ds2 := []); [constructor|].
-  eapply Atomic.LP_seq with (ds1 := []) (ds2 := []); [constructor|].
-  eapply Atomic.LP_seq with (ds1 := []) (ds2 := []); [constructor|].
-  eapply Atomic.LP_seq with (ds1 := []) (ds2 := []); [constructor|].
-  eapply Atomic.LP_ret. constructor.
-Qed.
-
-Lemma ipath_MF : Atomic.ipath P (ICall "matchFilename") trMF [] false.
-Proof. eapply Atomic.IP_call; [|exact bpath_MF]. lk. Qed.
-
-(* the body of the discovery loop of notifyNewFiles *)
-Definition loopB : list instr :=
-  match body_notifyNewFiles with
-  | _ :: _ :: ILoop b :: _ => b
-  | _ => []
-  end.
 
 Definition eMr := EAcc fM false.
 Definition eMw := EAcc fM true.
@@ -171,187 +118,86 @@ Definition eAw := EAcc fA true.
 Definition eLr := EAcc fL false.
 Definition eLw := EAcc fL true.
 
-(* one iteration, four shapes *)
-Lemma iter0 : Atomic.lpath P loopB (trMF ++ []) [] false.      (* no address *)
-Proof.
-  unfold loopB, body_notifyNewFiles.
-  eapply Atomic.LP_seq with (ds1 := []) (ds2 := []); [exact ipath_MF|].
-  change (@nil ev) with (@nil ev ++ []) at 1.
-  eapply Atomic.LP_seq with (ds1 := []) (ds2 := []); [|constructor].
-  eapply Atomic.IP_if_r. constructor.
-Qed.
+(* one iteration of the discovery loop: no address / known address, same file / known address,
+   other file / new address *)
+Definition itwords : list (list ev) := [[]; [eMr]; [eMr; eMw]; [eMr; eMw; eAr; eAw]].
+Definition pat_tail : pat := [PStar itwords; PEv eLr; PEv (EUnlock mx)].
+Definition pat_nnf : pat := PEv (ELock mx) :: pat_tail.
+Definition pat_add : pat := map PEv [ELock mx; eLr; eLw; EUnlock mx].
+Definition pat_get : pat := map PEv [ELock mx; eAr; EUnlock mx].
 
-Lemma iter1 : Atomic.lpath P loopB (trMF ++ [eMr]) [] false.    (* known address, same file *)
-Proof.
-  unfold loopB, body_notifyNewFiles.
-  eapply Atomic.LP_seq with (ds1 := []) (ds2 := []); [exact ipath_MF|].
-  change [eMr] with ([eMr] ++ []).
-  eapply Atomic.LP_seq with (ds1 := []) (ds2 := []); [|constructor].
-  eapply Atomic.IP_if_l.
-  change [eMr] with ([eMr] ++ [] ++ [] ++ []).
-  eapply Atomic.LP_seq with (ds1 := []) (ds2 := []); [constructor|].
-  eapply Atomic.LP_seq with (ds1 := []) (ds2 := []); [constructor|].
-  eapply Atomic.LP_seq with (ds1 := []) (ds2 := []); [|constructor].
-  eapply Atomic.IP_if_r. constructor.
-Qed.
-
-Lemma iter2 : Atomic.lpath P loopB (trMF ++ [eMr; eMw]) [] false.   (* known address, other file *)
-Proof.
-  unfold loopB, body_notifyNewFiles.
-  eapply Atomic.LP_seq with (ds1 := []) (ds2 := []); [exact ipath_MF|].
-  change [eMr; eMw] with ([eMr; eMw] ++ []).
-  eapply Atomic.LP_seq with (ds1 := []) (ds2 := []); [|constructor].
-  eapply Atomic.IP_if_l.
-  change [eMr; eMw] with ([eMr] ++ [] ++ [eMw] ++ []).
-  eapply Atomic.LP_seq with (ds1 := []) (ds2 := []); [constructor|].
-  eapply Atomic.LP_seq with (ds1 := []) (ds2 := []); [constructor|].
-  eapply Atomic.LP_seq with (ds1 := []) (ds2 := []); [|constructor].
-  eapply Atomic.IP_if_l.
-  change [eMw] with ([] ++ [eMw] ++ [] ++ []).
-  eapply Atomic.LP_seq with (ds1 := []) (ds2 := []); [constructor|].
-  eapply Atomic.LP_seq with (ds1 := []) (ds2 := []); [constructor|].
-  eapply Atomic.LP_seq with (ds1 := []) (ds2 := []); [|constructor].
-  eapply Atomic.IP_if_r. constructor.
-Qed.
-
-Lemma iter3 : Atomic.lpath P loopB (trMF ++ [eMr; eMw; eAr; eAw]) [] false.   (* new address *)
-Proof.
-  unfold loopB, body_notifyNewFiles.
-  eapply Atomic.LP_seq with (ds1 := []) (ds2 := []); [exact ipath_MF|].
-  change [eMr; eMw; eAr; eAw] with ([eMr; eMw; eAr; eAw] ++ []).
-  eapply Atomic.LP_seq with (ds1 := []) (ds2 := []); [|constructor].
-  eapply Atomic.IP_if_l.
-  change [eMr; eMw; eAr; eAw] with ([eMr] ++ [] ++ [eMw; eAr; eAw] ++ []).
-  eapply Atomic.LP_seq with (ds1 := []) (ds2 := []); [constructor|].
-  eapply Atomic.LP_seq with (ds1 := []) (ds2 := []); [constructor|].
-  eapply Atomic.LP_seq with (ds1 := []) (ds2 := []); [|constructor].
-  eapply Atomic.IP_if_l.
-  change [eMw; eAr; eAw] with ([] ++ [eMw] ++ [eAr; eAw] ++ []).
-  eapply Atomic.LP_seq with (ds1 := []) (ds2 := []); [constructor|].
-  eapply Atomic.LP_seq with (ds1 := []) (ds2 := []); [constructor|].
-  eapply Atomic.LP_seq with (ds1 := []) (ds2 := []); [|constructor].
-  eapply Atomic.IP_if_l.
-  change [eAr; eAw] with ([] ++ [] ++ [] ++ [eAr] ++ [eAw] ++ []).
-  eapply Atomic.LP_seq with (ds1 := []) (ds2 := []); [constructor|].
-  eapply Atomic.LP_seq with (ds1 := []) (ds2 := []); [constructor|].
-  eapply Atomic.LP_seq with (ds1 := []) (ds2 := []); [constructor|].
-  eapply Atomic.LP_seq with (ds1 := []) (ds2 := []); [constructor|].
-  eapply Atomic.LP_seq with (ds1 := []) (ds2 := []); [constructor|].
-  constructor.
-Qed.
-
-Lemma loop_iter : forall it trL,
-  Atomic.lpath P loopB it [] false -> Atomic.ipath P (ILoop loopB) trL [] false ->
-  Atomic.ipath P (ILoop loopB) (it ++ trL) [] false.
-Proof.
-  intros it trL Hi Hl. change (@nil ditem) with (@nil ditem ++ []).
-  eapply Atomic.IP_loop_iter; eassumption.
-Qed.
-
-Definition tail3 : list ev := [eLr; eLr; EUnlock mx].
+(* the translated program has, for every event sequence of the trees, a complete path (calls
+   expanded, deferred unlocks run) with that projection *)
+Definition covers_ok (p : prog) (fuel : nat) : bool :=
+  covers p mx discovery_locs fuel "notifyNewFiles" pat_nnf &&
+  covers p mx discovery_locs fuel "AddListener" pat_add &&
+  covers p mx discovery_locs fuel "GetAccounts" pat_get.
 
 Section Conform.
   Variable addr_of : fid -> option addr.
 
-  (* every branch of the tree of the loop is a path of the translated loop *)
-  Lemma loop_paths : forall listing new tr, wpaths (loop addr_of listing new) tr ->
-    exists trL, Atomic.ipath P (ILoop loopB) trL [] false /\ tr = filter rel trL ++ tail3.
+  Lemma loop_paths : forall listing new tr, wpaths (loop addr_of listing new) tr -> pmatch pat_tail tr.
   Proof.
     induction listing as [|f rest IH]; intros new tr H; cbn [loop] in H.
-    - exists []. split; [constructor|]. repeat inv_p. reflexivity.
+    - repeat inv_p. apply PM_done. repeat constructor.
     - inv_p.
       destruct (addr_of f) as [a|].
       + inv_p.
         destruct (lookup a (pm p)) as [f'|].
         * destruct (N.eqb f' f).
-          -- use_ih IH.
-             exists ((trMF ++ [eMr]) ++ trL). split; [apply loop_iter; [exact iter1|exact Hl]|].
-             rewrite filter_app. reflexivity.
-          -- inv_p. use_ih IH.
-             exists ((trMF ++ [eMr; eMw]) ++ trL). split; [apply loop_iter; [exact iter2|exact Hl]|].
-             rewrite filter_app. reflexivity.
-        * inv_p. inv_p. inv_p. use_ih IH.
-          exists ((trMF ++ [eMr; eMw; eAr; eAw]) ++ trL). split; [apply loop_iter; [exact iter3|exact Hl]|].
-          rewrite filter_app. reflexivity.
-      + use_ih IH.
-        exists ((trMF ++ []) ++ trL). split; [apply loop_iter; [exact iter0|exact Hl]|].
-        rewrite filter_app. reflexivity.
+          -- apply (PM_iter itwords _ [eMr]); [cbn; auto|]. eapply IH; eassumption.
+          -- inv_p. apply (PM_iter itwords _ [eMr; eMw]); [cbn; auto|]. eapply IH; eassumption.
+        * inv_p. inv_p. inv_p.
+          apply (PM_iter itwords _ [eMr; eMw; eAr; eAw]); [cbn; auto 6|]. eapply IH; eassumption.
+      + apply (PM_iter itwords _ []); [cbn; auto|]. eapply IH; eassumption.
   Qed.
 
-  (* a complete path of notifyNewFiles around a path of its loop *)
-  Lemma nnf_bpath : forall trL, Atomic.ipath P (ILoop loopB) trL [] false ->
-    Atomic.bpath P body_notifyNewFiles (([ELock mx] ++ [] ++ trL ++ [eLr] ++ [eLr] ++ [] ++ [] ++ [] ++ []) ++ [EUnlock mx]).
-  Proof.
-    intros trL Hl.
-    eapply Atomic.BP with (r := false).
-    { unfold body_notifyNewFiles.
-      eapply Atomic.LP_seq; [constructor|].
-      eapply Atomic.LP_seq; [constructor|].
-      eapply Atomic.LP_seq; [exact Hl|].
-      eapply Atomic.LP_seq; [constructor|].
-      eapply Atomic.LP_seq; [constructor|].
-      eapply Atomic.LP_seq; [constructor|].
-      eapply Atomic.LP_seq; [constructor|].
-      eapply Atomic.LP_seq; [constructor|].
-      constructor. }
-    cbn [app]. constructor. constructor.
-  Qed.
+  Variable p : prog.
+  Variable fuel : nat.
+  Hypothesis Hcov : covers_ok p fuel = true.
 
-  Lemma discover_conforms : forall listing, conforms P (discover addr_of listing).
+  Lemma discover_conforms : forall listing, conforms p (discover addr_of listing).
   Proof.
     intros listing tr H. right. unfold discover in H. inv_p.
-    match goal with H : Reduction.paths _ _ _ _ _ _ (loop _ _ _) _ |- _ => destruct (loop_paths _ _ _ H) as [trL [Hl ->]] end.
+    assert (Hm : pmatch pat_nnf (ELock mx :: tr0)) by (constructor; eapply loop_paths; eassumption).
+    unfold covers_ok in Hcov. apply andb_true_iff in Hcov. destruct Hcov as [Hc _].
+    apply andb_true_iff in Hc. destruct Hc as [Hc _].
+    destruct (covers_sound p mx discovery_locs fuel _ _ Hc _ Hm) as (body & tr' & Hl & Hb & Hf).
     exists "notifyNewFiles"%string, [is_read ["listeners"%string]; is_read ["addressToFileMap"%string];
                                      is_write ["addressToFileMap"%string]; is_write ["addressList"%string]],
-           body_notifyNewFiles. eexists.
-    split; [left; reflexivity|]. split; [lk|]. split; [exact (nnf_bpath trL Hl)|].
-    rewrite !filter_app. cbn [filter app]. rewrite !app_nil_r.
-    change (rel (ELock mx)) with true. change (rel eLr) with true. change (rel (EUnlock mx)) with true.
-    cbn [app]. rewrite <- app_assoc. reflexivity.
+           body, tr'.
+    split; [left; reflexivity|]. auto.
   Qed.
 
-  Lemma add_conforms : forall l, conforms P (add_code l).
+  Lemma add_conforms : forall l, conforms p (add_code l).
   Proof.
-    intros l tr H. right. unfold add_code in H.
-    repeat inv_p.
-    exists "AddListener"%string, [is_write ["listeners"%string]], body_AddListener,
-           (([ELock mx] ++ [] ++ [eLr] ++ [eLw] ++ []) ++ [EUnlock mx]).
-    split; [right; right; left; reflexivity|]. split; [lk|]. split; [|reflexivity].
-    eapply Atomic.BP with (r := false).
-    { unfold body_AddListener.
-      eapply Atomic.LP_seq; [constructor|].
-      eapply Atomic.LP_seq; [constructor|].
-      eapply Atomic.LP_seq; [constructor|].
-      eapply Atomic.LP_seq; [constructor|].
-      constructor. }
-    cbn [app]. constructor. constructor.
+    intros l tr H. right. unfold add_code in H. repeat inv_p.
+    unfold covers_ok in Hcov. apply andb_true_iff in Hcov. destruct Hcov as [Hc _].
+    apply andb_true_iff in Hc. destruct Hc as [_ Hc].
+    destruct (covers_sound p mx discovery_locs fuel _ _ Hc _ (pmatch_word [ELock mx; eLr; eLw; EUnlock mx]))
+      as (body & tr' & Hl & Hb & Hf).
+    exists "AddListener"%string, [is_write ["listeners"%string]], body, tr'.
+    split; [right; right; left; reflexivity|]. auto.
   Qed.
 
-  Lemma get_conforms : conforms P get_code.
+  Lemma get_conforms : conforms p get_code.
   Proof.
-    intros tr H. right. unfold get_code in H.
-    repeat inv_p.
-    exists "GetAccounts"%string, [is_read ["addressList"%string]], body_GetAccounts,
-           (([ELock mx] ++ [] ++ [eAr] ++ [eAr] ++ []) ++ [EUnlock mx]).
-    split; [right; right; right; left; reflexivity|]. split; [lk|]. split; [|reflexivity].
-    eapply Atomic.BP with (r := false).
-    { unfold body_GetAccounts.
-      eapply Atomic.LP_seq; [constructor|].
-      eapply Atomic.LP_seq; [constructor|].
-      eapply Atomic.LP_seq; [constructor|].
-      eapply Atomic.LP_seq; [constructor|].
-      constructor. }
-    cbn [app]. constructor. constructor.
+    intros tr H. right. unfold get_code in H. repeat inv_p.
+    unfold covers_ok in Hcov. apply andb_true_iff in Hcov. destruct Hcov as [_ Hc].
+    destruct (covers_sound p mx discovery_locs fuel _ _ Hc _ (pmatch_word [ELock mx; eAr; EUnlock mx]))
+      as (body & tr' & Hl & Hb & Hf).
+    exists "GetAccounts"%string, [is_read ["addressList"%string]], body, tr'.
+    split; [right; right; right; left; reflexivity|]. auto.
   Qed.
 
-  Lemma sender_conforms : forall n, conforms P (sender n).
+  Lemma sender_conforms : forall n, conforms p (sender n).
   Proof.
     induction n as [|n IH]; intros tr H; cbn [sender] in H.
     - left. inv_p. reflexivity.
     - inv_p. match goal with H : Reduction.paths _ _ _ _ _ _ (sender _) _ |- _ => exact (IH _ H) end.
   Qed.
 
-  Theorem tcode_conforms : forall F c, tcode addr_of F c -> conforms P c.
+  Theorem tcode_conforms : forall F c, tcode addr_of F c -> conforms p c.
   Proof.
     intros F c H. destruct H.
     - intros tr Hp. unfold refresh_code in Hp. inv_p.
@@ -366,6 +212,10 @@ Section Conform.
     - apply sender_conforms.
     - intros tr Hp. left. inv_p. reflexivity.
   Qed.
+End Conform.
+
+Section Combine.
+  Variable addr_of : fid -> option addr.
 
   Notation wexec := (Reduction.exec wcfg wstep).
 
@@ -416,12 +266,17 @@ Section Conform.
     split; [exact T1|]. split; [exact T2|]. split; [exact T3|]. split; [exact T4|].
     intros Hq l a Hl Ha. apply T5; auto.
   Qed.
-End Conform.
+End Combine.
 
 (* ---------------------------------------------------------------------------------------------- *)
-(* the instance for the structure translated from the current source *)
-Theorem fswallet_fine_grained_refines :
-  steps_atomic_ok fswallet_prog fuel = true ->
+(* for any translated program that passes both computed checks *)
+
+(* the path finder succeeds on the structure translated from the current source *)
+Lemma fswallet_covers : covers_ok fswallet_prog fuel = true.
+Proof. vm_compute. reflexivity. Qed.
+
+Theorem translated_fine_grained_refines : forall p fuel,
+  steps_atomic_ok p fuel = true -> covers_ok p fuel = true ->
   forall addr_of ls thr sch sn,
     wallet_threads addr_of thr ->
     Reduction.exec wcfg wstep (wallet_init ls thr) sch sn -> c_holder _ _ _ _ _ _ sn = None ->
@@ -429,13 +284,13 @@ Theorem fswallet_fine_grained_refines :
       run addr_of (init ls) ops = abs (c_p _ _ _ _ _ _ sn, c_e _ _ _ _ _ _ sn) /\
       (NoDup (pls (c_p _ _ _ _ _ _ sn)) -> valid_seq addr_of (init ls) ops).
 Proof.
-  intros Hok addr_of ls thr sch sn Hthr He Hfin.
-  apply (fine_grained_refines addr_of fswallet_prog fuel Hok ls thr sch sn Hthr); auto.
-  intros c Hc. exact (tcode_conforms addr_of [] c (Hthr c Hc)).
+  intros p fuel Hok Hcov addr_of ls thr sch sn Hthr He Hfin.
+  apply (fine_grained_refines addr_of p fuel Hok ls thr sch sn Hthr); auto.
+  intros c Hc. exact (tcode_conforms addr_of p fuel Hcov [] c (Hthr c Hc)).
 Qed.
 
-Theorem fswallet_fine_grained_outcome :
-  steps_atomic_ok fswallet_prog fuel = true ->
+Theorem translated_fine_grained_outcome : forall p fuel,
+  steps_atomic_ok p fuel = true -> covers_ok p fuel = true ->
   forall addr_of ls thr sch sn,
     wallet_threads addr_of thr ->
     Reduction.exec wcfg wstep (wallet_init ls thr) sch sn -> c_holder _ _ _ _ _ _ sn = None ->
@@ -448,9 +303,29 @@ Theorem fswallet_fine_grained_outcome :
     (flat_map n_remaining (en E) = [] ->
        forall l a, In l ls -> In a (pl P) -> count_occ pair_dec (elog E) (l, a) = 1).
 Proof.
-  intros Hok addr_of ls thr sch sn Hthr He Hfin Hnd Hls.
-  apply (fine_grained_outcome addr_of fswallet_prog fuel Hok ls thr sch sn Hthr); auto.
-  intros c Hc. exact (tcode_conforms addr_of [] c (Hthr c Hc)).
+  intros p fuel Hok Hcov addr_of ls thr sch sn Hthr He Hfin Hnd Hls.
+  apply (fine_grained_outcome addr_of p fuel Hok ls thr sch sn Hthr); auto.
+  intros c Hc. exact (tcode_conforms addr_of p fuel Hcov [] c (Hthr c Hc)).
+Qed.
+
+(* ... with the observations of the finished calls *)
+Theorem translated_fine_grained_observations : forall p fuel,
+  steps_atomic_ok p fuel = true -> covers_ok p fuel = true ->
+  forall addr_of ls thr sch sn,
+    wallet_threads addr_of thr ->
+    Reduction.exec wcfg wstep (wallet_init ls thr) sch sn -> c_holder _ _ _ _ _ _ sn = None ->
+    exists ops,
+      run addr_of (init ls) ops = abs (c_p _ _ _ _ _ _ sn, c_e _ _ _ _ _ _ sn) /\
+      (NoDup (pls (c_p _ _ _ _ _ _ sn)) -> valid_seq addr_of (init ls) ops) /\
+      forall u o, nth_error (c_thr _ _ _ _ _ _ sn) u = Some (Done o) ->
+        nth_error thr u = Some (Done o) \/ o = [] \/
+        exists ops1 ops2, ops = ops1 ++ ops2 /\ o = addrList (run addr_of (init ls) ops1).
+Proof.
+  intros p fuel Hok Hcov addr_of ls thr sch sn Hthr He Hfin.
+  apply (fine_grained_refines_obs addr_of ls thr sch sn Hthr); auto.
+  intros c Hc. apply (discipline_from_atomic p fuel c Hok).
+  - exact (tcode_conforms addr_of p fuel Hcov [] c (Hthr c Hc)).
+  - apply (tcode_shape addr_of []). apply Hthr. exact Hc.
 Qed.
 
 (* non-vacuity: a NON-serial fine-grained execution (a file appears while AddListener is inside its
